@@ -96,6 +96,10 @@ class ProjectorModel:
     def __init__(self, repo: Repo):
         self.repo = repo
         self.cls = repo.find(CLS, RULE)
+        known = {"__init__", "_apply", "_apply_left", "_adjoint", "conjugate", "_transpose", "_matvec", "_matmat", "_rmatvec", "_rmatmat"}
+        if any(isinstance(n, ast.FunctionDef) and n.name not in known for n in self.cls.body):
+            # helper methods extracted from the relatives' constructors: analyse the class with them seen through
+            self.cls = repo.find_expanded(CLS, RULE)
         self.methods = {n.name: n for n in self.cls.body if isinstance(n, ast.FunctionDef)}
         self.aliases = {}
         for n in self.cls.body:
